@@ -94,16 +94,25 @@ def detail_of(ob, at, u, fname):
             return "duplicate-label"
         return "missing-block"
     if ob == "PhiSourcesArePreds":
+        # the phi names a source block that is already closed by a terminator leading elsewhere
+        # (funcjnz/funcjmp are no-ops on a terminated block, but phi.blk[] records f->end regardless)
         f = next((g for g in u.mod["funcs"] if g["name"] == fname), None)
+        kinds = set()
         if f:
             blocks = {b["label"]: b for b in f["blocks"]}
             for a in at:
                 b = blocks.get(a)
-                if b and b["phi"]:
-                    for lab, _ in b["phi"]["srcs"]:
-                        sb = blocks.get(lab)
-                        if sb and sb["jump"] and sb["jump"]["k"] == "hlt" and a.startswith("cond_join"):
-                            return "cond-arm-ends-in-hlt"
+                if not (b and b["phi"]):
+                    return "other"
+                bad = [lab for lab, _ in b["phi"]["srcs"] if lab in blocks and blocks[lab]["jump"]
+                       and a not in blocks[lab]["jump"]["targets"]]
+                if not bad:
+                    return "other"
+                kinds |= {blocks[lab]["jump"]["k"] for lab in bad}
+        if kinds == {"hlt"}:
+            return "phi-source-terminated-by-hlt"
+        if kinds and kinds <= {"ret", "jmp", "jnz", "hlt"}:
+            return "phi-source-terminated-by-jump"
         return "other"
     if ob == "InstrClassOK":
         return ",".join(sorted(at)[:3])
@@ -354,6 +363,7 @@ def emit_model(ctx, builds, judge):
     # finite behaviours: batches of functions per translation unit
     B = 150
     units = []
+    fin.sort(key=lambda c: (not c["failing"], len(c["hist"])))
     for k in range(0, len(fin), B):
         chunk = fin[k:k + B]
         src = PRE + "".join(emit_render(c, "f%d" % i) for i, c in enumerate(chunk))
@@ -404,15 +414,17 @@ def emit_compare(ctx, u, judge):
             continue
         ctx.validated(1)
         c["_func"] = "f%d" % i
-    judge.add(u)
+    # QbeWF judges every batch that contains a behaviour the model calls malformed; of the others every 6th in the quick tier
+    u.meta["judged"] = (not ctx.quick) or any(c["failing"] for c in u.meta["cases"]) or (int(u.id.split(":")[1].split("/")[0]) % 6 == 0)
+    if u.meta["judged"]:
+        judge.add(u)
 
 
 def emit_crosscheck(ctx, units, failed):
     """EmitModel's failing obligations on a behaviour must be exactly QbeWF's on the IL the binary printed."""
     for u in units:
-        if u.id not in failed and u.id not in ctx_units(ctx):
-            pass
-    for u in units:
+        if not u.meta.get("judged"):
+            continue
         fl = {}
         for fname, ob, at in failed.get(u.id, []):
             fl.setdefault(fname, set()).add(ob)
@@ -435,10 +447,6 @@ def emit_crosscheck(ctx, units, failed):
                 pref = "wf" if ob in ("JumpsTargetExisting", "BlocksTerminated", "LabelsUnique") else "emit"
                 ctx.violation("%s:%s:%s" % (pref, ob, devs), "exit 0 with malformed function (EmitModel deviation %s)" % devs,
                               {"hist": hist, "source": PRE + emit_render(c, "f"), "failing": c["failing"]})
-
-
-def ctx_units(ctx):
-    return ()
 
 
 # ----------------------------------------------------------------------------------------------
@@ -517,7 +525,14 @@ def run(ctx):
     if nhm:
         raise vlib.MachineryError("%d inputs: instrumented build prints different IL than the plain build" % nhm)
     for u in units:
+        if u.kind == "gen" and u.rc == 0 and u.mod is not None:
+            u.known.update(u.meta["gen_known"])        # WfGen's table is the oracle for the objects it declares
         judge.add(u)
+    ngen = [u for u in units if u.kind == "gen" and not u.meta["undef"]]
+    if ngen and sum(1 for u in ngen if u.rc == 0) < 0.95 * len(ngen):
+        bad = next(u for u in ngen if u.rc != 0)
+        raise vlib.MachineryError("generated programs stopped compiling (%d of %d exit 0); e.g. rc=%s %s" % (
+            sum(1 for u in ngen if u.rc == 0), len(ngen), bad.rc, (bad.err or "")[:300]))
     kinds = {}
     for u in units:
         k = kinds.setdefault(u.kind, {"inputs": 0, "exit0": 0})
@@ -544,12 +559,97 @@ def run(ctx):
     ]
 
 
+PROLOGUE = """typedef __builtin_va_list va_list;
+struct S { int m; long n; char c[3]; };
+struct B { int bf : 3; unsigned ub : 5; int : 0; long lf : 33; };
+_Noreturn void die(void);
+int vx(int, ...);
+/*HELPERS*/
+/*GLOBALS*/
+int fn(int p, long lp, double dp, struct S sp, int *pp) {
+	int i = p, j = 0; unsigned u = p; char c = p; short sh = p; long l = lp; double d = dp; float fl = dp;
+	int a[4] = {0}; struct S s = sp, s2 = sp; struct B b = {0}; int (*fp)(int) = fi; int n = (p & 3) + 1; int vla[n];
+	vla[0] = 0;
+	/*BODY*/
+	return i;
+}
+/*MAIN*/
+"""
+HELPER_DEFS = """int fi(int a) { return a + 1; }
+double fd(double a) { return a * 2; }
+struct S gs(int a) { struct S r = {a, a + 1, {1, 2, 3}}; return r; }
+int vf(int n, ...) { va_list ap; int t = 0; __builtin_va_start(ap, n); while (n-- > 0) t += __builtin_va_arg(ap, int); t += (int)__builtin_va_arg(ap, double); __builtin_va_end(ap); return t; }"""
+HELPER_DECLS = "int fi(int); double fd(double); struct S gs(int); int vf(int, ...);"
+MAIN_DEF = "int main(void) { int z = 0; struct S s = gs(1); return fn(1, 2, 3.0, s, &z) + vf(2, 1, 2, 3.0); }"
+
+
+def gen_render(c, full):
+    """full: the helper functions are defined in the unit (CallArgsMatchCallee can then match the calls against
+    their signatures); otherwise only declared, which keeps the judged module small"""
+    g = "\n".join(x["decl"] for x in c["globs"])
+    body = " ".join(t for t in c["toks"] if t)
+    return (PROLOGUE.replace("/*HELPERS*/", HELPER_DEFS if full else HELPER_DECLS).replace("/*MAIN*/", MAIN_DEF if full else "")
+            .replace("/*GLOBALS*/", g).replace("/*BODY*/", body))
+
+
+def audit_globs(ctx, globs):
+    """WfGen's size/alignment table against clang on the three targets (spec audit, never a VIOLATION)."""
+    src = []
+    for g in globs.values():
+        src.append("%s _Static_assert(sizeof(%s) == %d, \"size %s\"); _Static_assert(__alignof__(%s) == %d, \"align %s\");" % (
+            g["decl"], g["name"], g["size"], g["name"], g["name"], g["align"], g["name"]))
+    p = ctx.path("globaudit.c")
+    open(p, "w").write("\n".join(src) + "\n")
+    for t in ("x86_64", "aarch64", "riscv64"):
+        r = subprocess.run(["clang", "--target=%s-linux-gnu" % t, "-std=c11", "-fsyntax-only", "-w", p], stdout=subprocess.PIPE,
+                           stderr=subprocess.STDOUT, text=True)
+        if r.returncode != 0:
+            raise vlib.MachineryError("SPEC-AUDIT: WfGen's global table disagrees with clang --target=%s:\n%s" % (t, r.stdout[-1500:]))
+
+
 def generated_units(ctx, targets):
-    return []
+    q = ctx.quick
+    plan = [("MC_WfGen.cfg", "plain", 90 if q else 900), ("MC_WfGen_noret.cfg", "noret", 10 if q else 90),
+            ("MC_WfGen_undef.cfg", "undef", 8 if q else 60)]
+    units, globs, seen = [], {}, set()
+    for cfg, cat, per_worker in plan:
+        r = ctx.tlc_must_pass("WfGen", cfg, workers=4, simulate=per_worker, depth=500, timeout=900)
+        for v in r.vcases:
+            if v in seen:
+                continue
+            seen.add(v)
+            c = json.loads(v)
+            for g in c["globs"]:
+                globs[g["name"]] = g
+            src = gen_render(c, len(seen) % 4 == 0)
+            meta = {"cat": cat, "undef": bool(c["undef"]), "steps": c["steps"], "nsw": c["nsw"], "ncase": c["ncase"],
+                    "gen_known": {g["name"]: (g["size"], g["align"]) for g in c["globs"]}}
+            for t in targets:
+                units.append(Unit("gen:%s:%s@%s" % (cat, vlib.sha(v)[:12], t), "gen", src, t, meta))
+    audit_globs(ctx, globs)
+    # audit of the generator against gcc: a program is valid C unless it leaves a goto label undefined
+    def audit(u):
+        p = subprocess.run(["gcc", "-std=c11", "-fsyntax-only", "-w", "-x", "c", "-"], input=u.src, stdout=subprocess.PIPE,
+                           stderr=subprocess.STDOUT, text=True)
+        return p.returncode, p.stdout
+    first = [u for u in units if u.target == targets[0]]
+    for u, (rc, msg) in zip(first, vlib.pmap(audit, first)):
+        if (rc != 0) != u.meta["undef"]:
+            raise vlib.MachineryError("SPEC-AUDIT: gcc %s a WfGen program (undef=%s):\n%s\n%s" % (
+                "rejects" if rc else "accepts", u.meta["undef"], msg[-800:], u.src[-1500:]))
+    ctx.cov["generated_programs"] = len(first)
+    return units
 
 
 def mutant_units(ctx, targets):
-    return []
+    import mutate
+    n = 3000 if ctx.quick else 20000
+    units = []
+    for i, (src, targ, mode, descr) in enumerate(mutate.generate(ctx, n, max_edits=1 if ctx.quick else 2)):
+        if mode != "c":
+            continue
+        units.append(Unit("mut:%d:%s" % (i, descr["file"]), "mutant", src, targ, {"mutation": descr}))
+    return units
 
 
 def replay(ctx, path):
